@@ -32,6 +32,7 @@ type Summary struct {
 	Samples    []Sample       `json:"samples"`
 	WallS      float64        `json:"wall_s"`
 	Stopped    string         `json:"stopped,omitempty"`
+	Partial    bool           `json:"partial,omitempty"`
 }
 
 type Sample struct {
@@ -169,6 +170,20 @@ func runMode(args []string) {
 			sum.WithVerd++
 			emit(w, map[string]any{"t": "obs", "obs": o})
 		}
+		if *announce && sum.Cases >= 25 && i+1 < *to {
+			// partial summary: if the process dies on a later case, the work done so far is still counted
+			part := sum
+			part.To = i + 1
+			for k := range fps {
+				part.FPs = append(part.FPs, k)
+			}
+			part.WallS = time.Since(t0).Seconds()
+			part.Partial = true
+			emit(w, part)
+			sum = Summary{T: "sum", Prop: *prop, From: i + 1, To: *to, Tags: map[string]int{}, Classes: map[string]int{}, Policies: map[string]int{}, NumCPUs: map[string]int{}}
+			fps = map[string]bool{}
+			t0 = time.Now()
+		}
 	}
 	for k := range fps {
 		sum.FPs = append(sum.FPs, k)
@@ -236,6 +251,9 @@ func main() {
 		serveMode()
 	case "gen":
 		genMode(os.Args[2:])
+	case "info":
+		b, _ := json.Marshal(map[string]any{"c05_boundary_base": boundaryEnumBase, "c05_boundary_combos": boundaryCombos()})
+		fmt.Println(string(b))
 	default:
 		fmt.Fprintln(os.Stderr, "unknown mode", os.Args[1])
 		os.Exit(2)
